@@ -151,60 +151,75 @@ func (s *absState) refine(cond ssa.Value, truth bool) bool {
 
 type absVisitor func(in ssa.Instruction, st *absState)
 
+// absDescend: optional inter-procedural step. For a call instruction it may return the set of
+// counter values with which the callee returns (having shown the callee's instructions to the
+// visitor itself); handled=false leaves the call opaque.
+type absDescend func(call *ssa.Call, st *absState) (counts []int, handled bool)
+
 // absExplore explores fn from block start (entered from pred, may be nil) with the given
 // initial facts. visit is called for every instruction in every reachable abstract state.
 // Returns the number of abstract states explored; cap exceeded -> ok=false.
 func (w *World) absExplore(fn *ssa.Function, start, pred *ssa.BasicBlock, init map[ssa.Value]absVal, count0 int, visit absVisitor) (int, bool) {
+	return w.absExploreX(fn, start, pred, init, count0, visit, nil)
+}
+
+func (w *World) absExploreX(fn *ssa.Function, start, pred *ssa.BasicBlock, init map[ssa.Value]absVal, count0 int, visit absVisitor, descend absDescend) (int, bool) {
 	seen := map[string]bool{}
-	type item struct{ st *absState }
+	type item struct {
+		st  *absState
+		idx int // resume inside the block at this instruction (0: enter the block)
+	}
 	first := &absState{Block: start, Pred: pred, Facts: map[ssa.Value]absVal{}, Count: count0}
 	for k, v := range init {
 		first.Facts[k] = v
 	}
-	work := []*absState{first}
+	work := []item{{first, 0}}
 	n := 0
 	for len(work) > 0 {
-		st := work[len(work)-1]
+		it := work[len(work)-1]
 		work = work[:len(work)-1]
+		st := it.st
 		b := st.Block
-		// entering b: phis take the operand of the taken edge; values defined in b are fresh
-		newFacts := map[ssa.Value]absVal{}
-		phiVals := map[ssa.Value]absVal{}
-		if st.Pred != nil {
-			pi := -1
-			for i, p := range b.Preds {
-				if p == st.Pred {
-					pi = i
+		if it.idx == 0 {
+			// entering b: phis take the operand of the taken edge; values defined in b are fresh
+			newFacts := map[ssa.Value]absVal{}
+			phiVals := map[ssa.Value]absVal{}
+			if st.Pred != nil {
+				pi := -1
+				for i, p := range b.Preds {
+					if p == st.Pred {
+						pi = i
+					}
+				}
+				for _, in := range b.Instrs {
+					phi, ok := in.(*ssa.Phi)
+					if !ok {
+						break
+					}
+					if pi >= 0 {
+						phiVals[phi] = st.eval(phi.Edges[pi])
+					}
 				}
 			}
+			defined := map[ssa.Value]bool{}
 			for _, in := range b.Instrs {
-				phi, ok := in.(*ssa.Phi)
-				if !ok {
-					break
-				}
-				if pi >= 0 {
-					phiVals[phi] = st.eval(phi.Edges[pi])
+				if v, ok := in.(ssa.Value); ok {
+					defined[v] = true
 				}
 			}
-		}
-		defined := map[ssa.Value]bool{}
-		for _, in := range b.Instrs {
-			if v, ok := in.(ssa.Value); ok {
-				defined[v] = true
+			for v, f := range st.Facts {
+				if !defined[v] {
+					newFacts[v] = f
+				}
 			}
-		}
-		for v, f := range st.Facts {
-			if !defined[v] {
-				newFacts[v] = f
+			for v, f := range phiVals {
+				if f != absUnknown {
+					newFacts[v] = f
+				}
 			}
+			st.Facts = newFacts
 		}
-		for v, f := range phiVals {
-			if f != absUnknown {
-				newFacts[v] = f
-			}
-		}
-		st.Facts = newFacts
-		k := st.key()
+		k := fmt.Sprintf("%s@%d", st.key(), it.idx)
 		if seen[k] {
 			continue
 		}
@@ -214,8 +229,38 @@ func (w *World) absExplore(fn *ssa.Function, start, pred *ssa.BasicBlock, init m
 		if n > 20000 {
 			return n, false
 		}
-		for _, in := range b.Instrs {
+		split := false
+		for i := it.idx; i < len(b.Instrs); i++ {
+			in := b.Instrs[i]
 			visit(in, st)
+			if descend == nil {
+				continue
+			}
+			call, ok := in.(*ssa.Call)
+			if !ok {
+				continue
+			}
+			counts, handled := descend(call, st)
+			if !handled {
+				continue
+			}
+			if len(counts) == 1 {
+				st.Count = counts[0]
+				continue
+			}
+			// the callee does not return (no count), or returns with several counter values
+			for _, c := range counts {
+				ns := &absState{Block: b, Pred: st.Pred, Facts: map[ssa.Value]absVal{}, Count: c}
+				for v, f := range st.Facts {
+					ns.Facts[v] = f
+				}
+				work = append(work, item{ns, i + 1})
+			}
+			split = true
+			break
+		}
+		if split {
+			continue
 		}
 		last := b.Instrs[len(b.Instrs)-1]
 		switch x := last.(type) {
@@ -228,17 +273,43 @@ func (w *World) absExplore(fn *ssa.Function, start, pred *ssa.BasicBlock, init m
 				if !ns.refine(x.Cond, si == 0) {
 					continue
 				}
-				work = append(work, ns)
+				work = append(work, item{ns, 0})
 			}
 		case *ssa.Jump:
-			ns := &absState{Block: b.Succs[0], Pred: b, Facts: st.Facts, Count: st.Count}
+			ns := &absState{Block: b.Succs[0], Pred: b, Count: st.Count}
 			cp := map[ssa.Value]absVal{}
 			for v, f := range st.Facts {
 				cp[v] = f
 			}
 			ns.Facts = cp
-			work = append(work, ns)
+			work = append(work, item{ns, 0})
 		}
 	}
 	return n, true
+}
+
+// absSummary explores callee from its entry with the facts known about the call's arguments
+// and returns the counter values at its returns.
+func (w *World) absSummary(callee *ssa.Function, call *ssa.Call, st *absState, visit absVisitor, descend absDescend) ([]int, bool) {
+	init := map[ssa.Value]absVal{}
+	for i, a := range call.Call.Args {
+		if i < len(callee.Params) {
+			if f := st.eval(a); f != absUnknown {
+				init[callee.Params[i]] = f
+			}
+		}
+	}
+	counts := map[int]bool{}
+	_, ok := w.absExploreX(callee, callee.Blocks[0], nil, init, st.Count, func(x ssa.Instruction, s2 *absState) {
+		visit(x, s2)
+		if _, isRet := x.(*ssa.Return); isRet && x.Block() != callee.Recover {
+			counts[s2.Count] = true
+		}
+	}, descend)
+	var out []int
+	for c := range counts {
+		out = append(out, c)
+	}
+	sort.Ints(out)
+	return out, ok
 }
